@@ -56,7 +56,11 @@ impl RawClient {
                     out.extend_from_slice(&b);
                 }
                 Err(e) if e.kind() == io::ErrorKind::WouldBlock || e.kind() == io::ErrorKind::TimedOut => {
-                    let panicked = crate::engine_panic::PANICS.lock().map(|g| !g.is_empty()).unwrap_or(true);
+                    // only a panic of a library thread (daemon request thread, vring worker) explains a missing answer
+                    let panicked = crate::engine_panic::PANICS
+                        .lock()
+                        .map(|g| g.iter().any(|p| p.contains("[thread vverif-daemon") || p.contains("[thread vring_worker")))
+                        .unwrap_or(false);
                     if panicked || t0.elapsed() > Duration::from_secs(20) {
                         return Err(RcErr::Timeout);
                     }
